@@ -3,7 +3,7 @@
      SEQ  <labels> | <map k:p,..> | <strings>          -> "<p> <p> ..."      sequential getKey on a table snapshot
      HIST <init labels> | <log>;<log>;.. | <final labels> | <final map>   (log = s:p,s:p,..)
                                                        -> ok | reject         check_history
-     ONCE <execs k:tok,..> | <returns k:tok,..>        -> ok | reject         check_once (tok 0 = no result)
+     ONCE <execs k:tok,..> | <returns k:tok,..>        -> ok | reject         check_once (return tok "-" = no result; 0 is a token: thread 0 of the machine)
      RUN  <recheck 0|1> <nthreads> | <labels> | <map> | A:t:s B:t ..
                                                        -> "<labels> | <log>;<log>.." | NONE   the index machine on a schedule
      ORUN <use_lock 0|1> | C:t:k S:t ..                -> "<execs> | <returns>" | NONE         the Cache.Do machine
@@ -32,11 +32,16 @@ let pair e =
   | [h; p] -> (str_of_string (unhex h), int_of_string p)
   | _ -> failwith ("bad pair " ^ e)
 let pairs s = List.map (fun e -> let (k, p) = pair e in (k, nat_of_int p)) (items ',' s)
-let opairs s = List.map (fun e -> let (k, p) = pair e in (k, if p = 0 then None else Some (nat_of_int p))) (items ',' s)
+let opair e =
+  match String.split_on_char ':' e with
+  | [h; "-"] -> (str_of_string (unhex h), None)
+  | [h; p] -> (str_of_string (unhex h), Some (nat_of_int (int_of_string p)))
+  | _ -> failwith ("bad pair " ^ e)
+let opairs s = List.map opair (items ',' s)
 let logs s = List.map pairs (List.map String.trim (String.split_on_char ';' s))
 let show_strs l = String.concat "," (List.map (fun s -> hex (string_of_str s)) l)
 let show_pairs l = String.concat "," (List.map (fun (s, p) -> hex (string_of_str s) ^ ":" ^ string_of_int (int_of_nat p)) l)
-let show_opairs l = String.concat "," (List.map (fun (s, p) -> hex (string_of_str s) ^ ":" ^ (match p with None -> "0" | Some n -> string_of_int (int_of_nat n))) l)
+let show_opairs l = String.concat "," (List.map (fun (s, p) -> hex (string_of_str s) ^ ":" ^ (match p with None -> "-" | Some n -> string_of_int (int_of_nat n))) l)
 
 let handle line =
   let fields = List.map String.trim (String.split_on_char '|' line) in
